@@ -98,6 +98,18 @@ func genMsgAlg(r *rand.Rand, n int) []string {
 		if i%3 == 1 && strings.HasPrefix(p.line, "msg.produce ") { // the same on a message object that was produced once before
 			out = append(out, "msg.produce2 "+strings.TrimPrefix(p.line, "msg.produce "))
 		}
+		// (b') defaults with a key that has a kid (and, for COSE_Mac / COSE_Encrypt, often a recipient addressed by that kid)
+		if i%2 == 0 {
+			kk := genMsgKey(r, alg, false)
+			for len(kk.kid) == 0 {
+				kk = genMsgKey(r, alg, false)
+			}
+			pk := buildProduce(r, kind, mode, payloadTok(r, mode, false), "nil", "nil", extTok(r), []msgKey{kk})
+			out = append(out, pk.line)
+			if pk.ok && pk.data != nil {
+				out = append(out, pk.consumeLine(pk.data, pk.ext, pk.pubKeys()))
+			}
+		}
 		// (b) defaults: nil headers record the key's alg and kid
 		p2 := buildProduce(r, kind, mode, payloadTok(r, mode, false), "nil", "nil", extTok(r), keys)
 		out = append(out, p2.line)
@@ -338,6 +350,9 @@ func genMsgForeign(r *rand.Rand, n int) []string {
 			twoUnderOneKid := round%6 == 2 || round%6 == 4 // fixed slots: two signatures under one key (kid), the second naming another algorithm
 			if twoUnderOneKid {
 				nSig = 2
+				if round%6 == 4 { // … while the body's protected bucket names the key's algorithm: each signature's own bucket decides
+					bodyProt = foreignBucket(r, alg, true)
+				}
 			}
 			skeys := []msgKey{k}
 			bad := false
